@@ -194,9 +194,12 @@ def adp_cfg(c):
 def adp_run(c):
     m = c["model"]
     if c["how"] == "class":
-        pots, eams = eamlib.build_objects(m)
-        dip = [Potential(a, b, eamlib.Tr(f)) for (a, b, f) in c["dip"]]
-        quad = [Potential(a, b, eamlib.Tr(f)) for (a, b, f) in c["quad"]]
+        # (pair, dipole and quadrupole potentials alike: every third case hands over Potential subclasses whose energy() is not their potentialFunction)
+        sub = (m["nr"] + len(c["dip"])) % 3 == 0
+        pots, eams = eamlib.build_objects(m, variant="energy-subclass" if sub else None)
+        mkp = (lambda a, b, f: eamlib.EnergyPotential(a, b, eamlib.Tr(f), eamlib.Tr(f + 40))) if sub else (lambda a, b, f: Potential(a, b, eamlib.Tr(f)))
+        dip = [mkp(a, b, f) for (a, b, f) in c["dip"]]
+        quad = [mkp(a, b, f) for (a, b, f) in c["quad"]]
         s = io.StringIO()
         ADP_EAMTabulation(pots, eams, dip, quad, float(m["cut"]), m["nr"], float(m["cutrho"]), m["nrho"]).write(s)
         return eamlib.setfl_tokens(s.getvalue(), fs=False, adp=True)
@@ -227,7 +230,7 @@ def excel_case(rng):
 def excel_run(c):
     m, target = c["model"], c["target"]
     if c["how"] == "class":
-        pots, eams = eamlib.build_objects(m)
+        pots, eams = eamlib.build_objects(m, variant="energy-subclass" if (m["nr"] + m["nrho"]) % 3 == 0 else None)
         s = io.BytesIO()
         if target == "excel":
             Excel_PairTabulation(pots, float(m["cut"]), m["nr"]).write(s)
